@@ -263,10 +263,10 @@ def _build_sites_symbolic(fi: FuncInfo, loop: ast.For) -> Sites:
                 break
 
     def kind(v: ast.expr) -> Any:
-        if s.atom is not None and norm(v) == norm(s.atom):
-            return "atom"
         if isinstance(v, ast.Name) and v.id == s.res_var:
             return "residue"
+        if s.atom is not None and norm(v) == norm(s.atom):
+            return "atom"
         if isinstance(v, ast.Constant) and isinstance(v.value, str):
             return "type"
         if isinstance(v, ast.Tuple):
@@ -866,7 +866,12 @@ def registration_by_value(chk, fi: FuncInfo, s: Sites, spec, distinct: bool) -> 
         chk.expect(n2 == len(full["points"]) - 1, "contact-atoms", site, "a point is registered only when the atom was found (a residue without one candidate atom registers one point less)", f"with atom {gone} missing the registration yields {n2} points instead of {len(full['points']) - 1}", K(fi, "atom-found"))
     except c03v.NotEvaluable as ex:
         chk.violation("contact-atoms", site, f"a residue that lacks a candidate atom makes the registration fail ({str(ex)[:100]}): a point is registered without testing that the atom was found", K(fi, "atom-found"))
-    # model filter
+    model_filter_by_value(chk, fi, s)
+
+
+def model_filter_by_value(chk, fi: FuncInfo, s: Sites) -> None:
+    repo = chk.repo
+    site = fi.site(s.res_loop)
     try:
         verdicts = {}
         for tag, (req, own) in {"none": (None, 2), "same": (2, 2), "other": (1, 2)}.items():
